@@ -75,10 +75,33 @@ type c19Struct struct {
 	Raw   json.RawMessage `json:"raw"`
 }
 
+// c19Parker is a caller type with its own UnmarshalJSON, which runs in the middle
+// of the decoding of the document that contains it: it gives the scheduler a
+// point inside json.Unmarshal at which other connections can make progress.
+type c19Parker struct {
+	park func()
+	Val  string
+}
+
+func (p *c19Parker) UnmarshalJSON(b []byte) error {
+	if p.park != nil {
+		p.park()
+	}
+	return json.Unmarshal(b, &p.Val)
+}
+
+func (p c19Parker) MarshalJSON() ([]byte, error) { return json.Marshal(p.Val) }
+
+type c19Parked struct {
+	First c19Parker      `json:"first"`
+	Rest  map[string]any `json:"rest"`
+	Tail  string         `json:"tail"`
+}
+
 type c19Item struct {
 	doc     []byte // the bytes on the wire
 	valid   bool   // valid JSON for the target
-	target  int    // 0 interface{}, 1 struct, 2 RawMessage, 3 []byte
+	target  int    // 0 interface{}, 1 struct, 2 RawMessage, 3 []byte, 4 struct with a field whose UnmarshalJSON parks
 	overLim bool
 	desc    string
 }
@@ -133,9 +156,12 @@ func runC19(r *Run) {
 		nItems := 1 + t.Draw(5)
 		for i := 0; i < nItems; i++ {
 			var it c19Item
-			it.target = t.Draw(4)
+			it.target = t.Draw(5)
 			it.valid = true
 			switch it.target {
+			case 4:
+				it.doc, _ = json.Marshal(map[string]any{"first": c19Strings[t.Draw(len(c19Strings))], "rest": map[string]any{"x": genJSONValue(t, 3, false)},
+					"tail": strings.Repeat(c19Strings[t.Draw(len(c19Strings))]+"t", 1+t.Draw(200))})
 			case 0, 2:
 				big := cs.limit > 32768 && t.Pct(20)
 				doc, _ := json.Marshal(genJSONValue(t, 4, big))
@@ -263,6 +289,12 @@ func runC19(r *Run) {
 					v = new(c19Struct)
 				case 2:
 					v = new(json.RawMessage)
+				case 4:
+					// decoding pauses inside the document while the other connections go on
+					v = &c19Parked{First: c19Parker{park: func() {
+						r.S.Count("probe.parked-inside-decode")
+						r.S.Park("a." + name + ".decoding")
+					}}}
 				default:
 					v = new([]byte)
 				}
